@@ -153,7 +153,7 @@ Proof.
               (exists c, short c /\ kind_of c = Some t /\ mk_default (hp s) t k df = inr (hp s, DScal c) /\ mk_default (hp d) t k df = inr (hp d, DScal c)) \/
               (k <> 1 /\ mk_default (hp s) t k df = inr (hp s ++ [mkcell t (repeat (type_default t) (Z.to_nat k))], DCell (length (hp s))) /\
                mk_default (hp d) t k df = inr (hp d ++ [mkcell t (repeat (type_default t) (Z.to_nat k))], DCell (length (hp d))))).
-  { unfold mk_default. destruct df as [c|].
+  { unfold mk_default, default_is_scalar. destruct df as [c|].
     - destruct (kind_of c) as [td|] eqn:Kc; [|left; eauto]. destruct (default_type_bad td t) eqn:Db; [left; eauto|right; left].
       exists c. split; [exact Hsh|]. split; [|auto]. unfold default_type_bad in Db. destruct td, t; simpl in Db; try discriminate Db; exact Kc.
     - destruct (k =? 1) eqn:K1; [right; left; exists (type_default t); split; [apply type_default_short|split; [destruct t; reflexivity|auto]]|right; right].
